@@ -40,6 +40,8 @@ type c17Case struct {
 	Cnt     int      `json:"cnt"`
 	Msz     uint64   `json:"msz"`
 	Workers int      `json:"workers"`
+	ThrObj  *int     `json:"thr_obj,omitempty"`  // threshold := marshalled size of this object (boundary)
+	MszObjs []int    `json:"msz_objs,omitempty"` // max batch size := sum of these objects' sizes (boundary)
 	Payload []int    `json:"payload"` // requested payload sizes
 	Sizes   []uint64 `json:"sizes"`   // marshalled sizes = what the cache accounts
 	Script  []op     `json:"script"`
@@ -58,6 +60,15 @@ func runC17(cs *c17Case) {
 		objs[i] = mkObj(uint64(cs.ID)+1000003, i, p)
 		cs.Sizes[i] = uint64(len(objs[i].data))
 		idx[objs[i].addr] = i
+	}
+	if cs.ThrObj != nil {
+		cs.Thr = cs.Sizes[*cs.ThrObj]
+	}
+	if len(cs.MszObjs) > 0 {
+		cs.Msz = 0
+		for _, k := range cs.MszObjs {
+			cs.Msz += cs.Sizes[k]
+		}
 	}
 	mainSt := newMainStorage(dir + "/main")
 	fs := &failStor{Storage: mainSt, idx: idx, sizes: cs.Sizes, poison: map[int]bool{}, delay: 5 * time.Millisecond}
@@ -195,6 +206,16 @@ func distinctPayloads(r *rng, n int, small, big int, nbig int) []int {
 const overheadGuess = 110 // marshalled size - payload size, roughly; only used to place thresholds
 
 func genParams(r *rng, cs *c17Case, small, big int) {
+	n := len(cs.Payload)
+	if r.chance(1, 3) {
+		k := r.intn(n)
+		cs.ThrObj = &k
+	}
+	if r.chance(1, 4) {
+		for j := 0; j < 1+r.intn(3); j++ {
+			cs.MszObjs = append(cs.MszObjs, r.intn(n))
+		}
+	}
 	// threshold between the small and big payload classes, or on top of an actual size later
 	cs.Thr = uint64(overheadGuess + (small+big)/2)
 	cs.Cnt = 1 + r.intn(4)
